@@ -3,6 +3,7 @@ import Ptn.C01.Lemmas
 import Ptn.C01.Enum
 import Ptn.C01.Compress
 import Ptn.C01.Cut
+import Ptn.C01.Fill
 /-! Property theorems for C01 (Hamiltonian → state diagram → operator is exact).  Only property theorems
 and non-vacuity examples live here; helper lemmas are in `Lemmas.lean`.
 
@@ -248,6 +249,73 @@ theorem sge_two_node_exact_partial {K : Type*} [CommSemiring K] {A B C : Type*} 
       hamSum f X Y terms :=
   sge_two_node_exact_partial_lem f X Y terms hnd SA SB hS L Γ' R hfac Cu Cv hc
 
+/-! ### `from_state_diagram`: the bridge from diagrams to operators
+
+A TTNO is a tree of node tensors; a node tensor is a finitely supported map from index tuples
+(parent leg, child legs) to formal operator sums `λ · γ · label` (`Cells`, `entryAt`).  `fillTTNO` is the
+port of `from_state_diagram` (`obtain_tensor_shape`, `find_tensor_position`, `+=`), `ttnoContract` sums,
+over ALL assignments of one index to every edge, the tensor product of the selected entries. -/
+
+/-- **`fill_contract_eq_denote`**: for every tree and every diagram on which the filling succeeds, the
+    contraction of the filled TTNO is the denotation of the diagram - the same summands, possibly in
+    another order (the contraction runs over index tuples, the denotation over hyperedges), hence the
+    same finitely supported map.  A choice of hyperedges that agree on every vertex *is* an index
+    assignment; several hyperedges at one position add up (`+=`). -/
+theorem fill_contract_eq_denote (dimOf : String → Nat) (d : SD) (T : TTNO)
+    (h : fillTTNO dimOf d = some T) :
+    (ttnoContract T).Perm (sdDenote d) ∧
+      ∀ a m, coeffOf (ttnoContract T) a m = coeffOf (sdDenote d) a m := by
+  have hp := contract_fill_perm dimOf d true T h none
+  exact ⟨hp, fun a m => coeffOf_perm hp a m⟩
+
+/-- The filling succeeds (no `IndexError`, every node has a shape) on every well-formed diagram whose
+    nodes all carry a hyperedge and whose hyperedges name a parent vertex exactly below the root. -/
+theorem fill_defined (dimOf : String → Nat) (d : SD) (w : d.WF) (p : Populated true d) :
+    ∃ T, fillTTNO dimOf d = some T :=
+  fill_defined_aux dimOf d true w p
+
+/-- Every bond dimension of the filled TTNO is the number of vertices of that edge. -/
+theorem bond_dims_eq_vertex_counts (dimOf : String → Nat) (d : SD) (T : TTNO)
+    (h : fillTTNO dimOf d = some T) : T.bondsBelow = bondDims d :=
+  fill_bonds dimOf d true T h
+
+/-- The filled TTNO has the identifiers and parent/child relations (children in the same order) of
+    the diagram's tree, and every physical dimension is the operator table's dimension of the node's
+    first hyperedge label. -/
+theorem ttno_structure (dimOf : String → Nat) (d : SD) (T : TTNO) (h : fillTTNO dimOf d = some T) :
+    T.skel = d.skel ∧ T.physDims = d.firstLabels.map fun p => (p.1, dimOf p.2) :=
+  ⟨fill_skel dimOf d true T h, fill_phys dimOf d true T h⟩
+
+/-- **`base_ttno_exact`**: for every tree and every non-empty Hamiltonian the uncompressed construction
+    followed by the tensor filling succeeds and yields a TTNO that
+    * contracts to Σ_k c_k ⊗_sites A_k (summand for summand up to order),
+    * has the reference tree's identifiers and parent/child relations,
+    * has bond dimension = number of terms on every edge,
+    * has the physical dimensions of the first term's padded labels - which are the nodes' own
+      dimensions as soon as the operator table gives every label used (or padded) at a node that
+      node's dimension. -/
+theorem base_ttno_exact (dimOf : String → Nat) (t : RTree) (tm : Term) (rest : List Term) :
+    ∃ d T, baseDiagram t (tm :: rest) = some d ∧ fillTTNO dimOf d = some T ∧
+      (ttnoContract T).Perm (hamDenote t (tm :: rest)) ∧
+      (∀ a m, coeffOf (ttnoContract T) a m = coeffOf (hamDenote t (tm :: rest)) a m) ∧
+      T.skel = t.skel ∧
+      T.physDims = (asgOf tm.ops t).map (fun p => (p.1, dimOf p.2)) ∧
+      ((∀ p ∈ t.dimsOf, dimOf (padLabel tm.ops p.1 p.2) = p.2) → T.physDims = t.dimsOf) := by
+  have inv := fold_fillable t tm rest (singleTerm t tm) (singleAt_WF _ _ _ true t) (sameShape_refl _)
+    (singleAt_populated _ _ _ true t) (singleAt_skel _ _ _ true t) (singleAt_firstLabels _ _ _ true t)
+  obtain ⟨w, pop, sk, fl⟩ := inv
+  obtain ⟨T, hT⟩ := fill_defined dimOf _ w pop
+  refine ⟨_, T, rfl, hT, ?_, ?_, ?_, ?_, ?_⟩
+  · have := (fill_contract_eq_denote dimOf _ T hT).1
+    rwa [base_exact t (tm :: rest) _ rfl] at this
+  · intro a m
+    rw [(fill_contract_eq_denote dimOf _ T hT).2 a m, base_exact t (tm :: rest) _ rfl]
+  · rw [(ttno_structure dimOf _ T hT).1, sk]
+  · rw [(ttno_structure dimOf _ T hT).2, fl]
+  · intro htab
+    rw [(ttno_structure dimOf _ T hT).2, fl]
+    exact asg_dims dimOf tm.ops t htab
+
 /-! ### Non-vacuity: concrete instances -/
 
 -- `exTree`, `exT1`, `exT2` (a branched tree with a dimension-1 node and two terms) are defined in `Lemmas.lean`.
@@ -288,6 +356,23 @@ example : IsCover (Matrix.of fun (_ _ : Fin 1) => (1 : ℕ)) {0} ∅ := by
 
 -- hypotheses of `sge_two_node_exact_partial`: distinct pairs
 example : ([((2 : ℕ), "A", "X"), (3, "A", "Y"), (5, "B", "X")].map (·.2)).Nodup := by decide
+
+-- `fill_contract_eq_denote` on a diagram where two hyperedges share one tensor position (`+=` matters) and the
+-- contraction runs over 2 × 2 index pairs of which two carry entries
+example : (fillTTNO (fun _ => 2) (.node 0 0 [⟨"A", 2, "g", none, [0]⟩, ⟨"B", 3, "1", none, [0]⟩, ⟨"C", 1, "1", none, [1]⟩]
+      [.node 1 2 [⟨"X", 1, "1", some 0, []⟩, ⟨"Y", 5, "h", some 1, []⟩] []])).map
+    (fun T => (ttnoContract T).map fun m => (m.coef, m.syms, m.asg)) =
+    some [(2, ["g"], [(0, "A"), (1, "X")]), (3, [], [(0, "B"), (1, "X")]), (5, ["h"], [(0, "C"), (1, "Y")])] := by
+  decide +kernel
+
+-- the filling fails where NumPy raises: a vertex index outside the bond
+example : fillTTNO (fun _ => 2) (.node 0 0 [⟨"A", 1, "1", none, [2]⟩] [.node 1 2 [⟨"X", 1, "1", some 0, []⟩] []]) = none := by
+  decide +kernel
+
+-- `base_ttno_exact` instance: bonds and physical dimensions of the uncompressed TTNO of two terms
+example : ((baseDiagram exTree [exT1, exT2]).bind (fillTTNO fun l => if l = "I3" ∨ l = "C" then 3 else if l = "I1" ∨ l = "B" then 1 else 2)).map
+    (fun T => (T.bondsBelow, T.physDims)) =
+    some ([(2, 2), (1, 2), (3, 2)], [(0, 2), (2, 3), (1, 2), (3, 1)]) := by decide +kernel
 
 -- the explicit enumeration really enumerates: 2 · 2 · 2 · 2 global choices for two terms on four nodes, two consistent
 example : ((baseDiagram exTree [exT1, exT2]).map fun d => ((choices d).length, (sdDenoteEnum d).length)) =
